@@ -66,7 +66,7 @@ def law_part(chk):
     (Q assembled from TLC-emitted NetEpiOne transitions); disclosed statistical layer, rejection threshold 1e-9"""
     from harness import master
     cases = [(3, (2, 1, 1), (2, 1, 1), 2, 3, ("S", "S", "I"), 0.6), (4, (1, 0, 1, 1, 0, 1), (1, 1, 1, 1), 2, 1, ("S", "I", "S", "I"), 1.0)]
-    per = 2500 if chk.tier == "quick" else 20000
+    per = 6000 if chk.tier == "quick" else 20000
     for (n, w, g, tau, gam, st0, T) in cases:
         trans, res = master.emit_one(n, w, g, tau, gam, True)
         chk.add_tlc("NetEpiOne (SIS) generator for the law of fast_nonMarkov_SIS with exponential rules, n=%d" % n, res)
